@@ -168,10 +168,10 @@ If several alignments are present in the input file and the output is a file
 					}
 				}
 				writeAlign(subalign, f)
-				start += subseqstep
-				if subseqstep == 0 || (start+len) > al.Length() {
+				if subseqstep == 0 || subseqstep > al.Length()-len-start {
 					break
 				} else {
+					start += subseqstep
 					if subseqout != "stdout" && subseqout != "-" {
 						subalignnum++
 						f.Close()
